@@ -23,7 +23,7 @@ LEVEL_TEXT = ("Base scenarios with depth-dependent sheared, time-dependent curre
 LEVEL_NOTE = "Equality is on f8 output, so 'bit for bit' is exact. Trusts the row tag column (an int instance variable) to follow the particle (C05)."
 RULE = ("case = base scenario + variant list. Non-trivial: at least one particle placed behind a removed/killed one in the state arrays survives for >= 3 further records "
         "(the cross-talk pattern); distinct by base parameters.")
-MANDATORY = ["repeat_pairs", "subset_pairs", "added_rows_pairs", "permuted_pairs", "killed_others_pairs", "time_shift_pairs", "death_then_output",
+MANDATORY = ["repeat_pairs", "subset_pairs", "added_rows_pairs", "permuted_pairs", "killed_others_pairs", "time_shift_pairs", "deactivated_others_pairs", "death_then_output",
              "trajectory_points_compared", "dense", "sparse", "survivor_behind_removed"]
 ASSUMPTIONS = ["diffusion off (as the property states)"]
 TIMEOUT = {"quick": 900, "thorough": 3400}
@@ -72,7 +72,8 @@ def base_spec(case: dict[str, Any]):
     return dict(world=world, rows=rows, dt=dt, nsteps=nsteps, scheme=["EF", "RK2", "RK4"][case["idx"] % 3], layout=layout)
 
 
-def make_scn(b: dict[str, Any], rows: list[dict[str, Any]], kill_tag: dict[str, list[int]], shift_steps: int = 0) -> dict[str, Any]:
+def make_scn(b: dict[str, Any], rows: list[dict[str, Any]], kill_tag: dict[str, list[int]], shift_steps: int = 0,
+             deactivate_tag: dict[str, list[int]] | None = None) -> dict[str, Any]:
     dt = b["dt"]
     start = str(tadd(C.T0, shift_steps * dt))
     w = dict(b["world"], t0=start)
@@ -80,7 +81,7 @@ def make_scn(b: dict[str, Any], rows: list[dict[str, Any]], kill_tag: dict[str, 
     run = dict(start=start, stop=str(tadd(start, b["nsteps"] * dt)), dt=dt, advection=b["scheme"], extra_forcing=["temp"],
                release=dict(columns=["release_time", "X", "Y", "Z", "rid"], rows=rel, header=True),
                state=dict(instance_variables=dict(rid="int", age="float", temp="float"), particle_variables=dict(release_time="time"), default_values=dict(age=0.0, temp=0.0)),
-               ibm=dict(module=C.REC_IBM, age=True, kill_tag=kill_tag, log=False),
+               ibm=dict(module=C.REC_IBM, age=True, kill_tag=kill_tag, deactivate_tag=deactivate_tag or {}, log=False),
                output=dict(period=dt, layout=b["layout"], instance=dict(pid="i4", X="f8", Y="f8", Z="f8", rid="i4", age="f8", temp="f8"), particle=dict(release_time="f8")))
     return dict(world=w, run=run)
 
@@ -108,8 +109,8 @@ def run_case(case: dict[str, Any], wd: Path) -> dict[str, Any]:
     desc = dict(idx=case["idx"], scheme=b["scheme"], layout=b["layout"], nsteps=b["nsteps"], nrows=len(b["rows"]))
     sit[b["layout"]] = 1
 
-    def run(tag, rows, kill_tag, shift=0):
-        scn = make_scn(b, rows, kill_tag, shift)
+    def run(tag, rows, kill_tag, shift=0, deact=None):
+        scn = make_scn(b, rows, kill_tag, shift, deact)
         res, conf, world = run_scenario(scn, wd / tag)
         cnt["runs"] = cnt.get("runs", 0) + 1
         if not res.ok:
@@ -141,9 +142,9 @@ def run_case(case: dict[str, Any], wd: Path) -> dict[str, Any]:
         sit[sitname] = sit.get(sitname, 0) + 1
         sit["trajectory_points_compared"] = sit.get("trajectory_points_compared", 0) + n
 
-    variants = ["repeat", "kill", "subset", "shift", "add", "permute"][: case["nvar"]]
-    if case["idx"] % 2 and case["nvar"] == 4:
-        variants = ["kill", "add", "permute", "shift"]
+    variants = ["repeat", "kill", "subset", "shift", "add", "permute", "deactivate"][: case["nvar"] + 1]
+    if case["nvar"] == 4:
+        variants = ["kill", "add", "permute", "shift", "deactivate"] if case["idx"] % 2 else ["repeat", "kill", "subset", "deactivate"]
     nontrivial = False
     for var in variants:
         if len(V) > 2:
@@ -169,6 +170,22 @@ def run_case(case: dict[str, Any], wd: Path) -> dict[str, Any]:
                     if vpos and any(pos[r] > min(vpos) and len([p for p in btr[r] if p[0] > s + 2]) >= 1 for r in keep if r in pos):
                         sit["survivor_behind_removed"] = sit.get("survivor_behind_removed", 0) + 1
                         nontrivial = True
+        elif var == "deactivate":
+            # other particles become inactive (alive, not moved): they stay in the state arrays in front of the others
+            early = [r["rid"] for r in b["rows"] if r["step"] == 0]
+            victims = [int(x) for x in rng.choice(early[:-1] or early, size=min(max(1, len(early) // 3), len(early[:-1] or early)), replace=False)]
+            s = int(rng.integers(0, max(1, b["nsteps"] - 4)))
+            o = run("deactivate", b["rows"], {}, deact={str(s): victims})
+            if o:
+                keep = [r for r in rids if r not in victims]
+                compare(f"other particles (rows {victims}) deactivated by the IBM at step {s}", o, keep, "deactivated_others_pairs")
+                # the inactive ones themselves must stay where they were
+                otr = o[0]
+                for v_ in victims:
+                    pts = [p for p in otr.get(v_, []) if p[0] > s]
+                    if len({(p[1], p[2]) for p in pts}) > 1:
+                        V.append(C.viol(f"row {v_} was deactivated at step {s} but keeps moving: {pts[:3]}", **desc))
+                        break
         elif var == "subset":
             keep_rows = [r for r in b["rows"] if rng.random() < 0.5] or b["rows"][:1]
             o = run("subset", keep_rows, {})
